@@ -79,10 +79,12 @@ structure GChan where
   running : Bool := false                  -- the polled `async fn` continues without suspending
   defer : Option (Nat × List Ev) := none   -- a `FutureWriter` is being dropped: (handle, events after the default write started)
   incoming : List Nat := []                -- what the host writes into the buffer of the read this step starts
+  esize : Nat := 1                         -- element size of the payload in bytes (`size_of::<T>()`; only `collect`'s vector growth depends on it)
 
-/-- std's `RawVec` amortised growth for `reserve(1)` on a full vector (8 for 1-byte elements, else 4) -/
-def growCap (kind : PKind) (cap : Nat) : Nat :=
-  max (max (2 * cap) (cap + 1)) (if kind.lowers then 4 else 8)
+/-- std's `RawVec` amortised growth for `reserve(1)` on a full vector; the minimum non-zero capacity is 8 for
+1-byte elements, 4 for elements up to 1024 bytes, else 1 -/
+def growCap (esize : Nat) (cap : Nat) : Nat :=
+  max (max (2 * cap) (cap + 1)) (if esize == 1 then 8 else if esize ≤ 1024 then 4 else 1)
 
 /-! ## Host side (rule level) -/
 
@@ -173,7 +175,7 @@ def hostDrop (h : HChan) (tok : Ev) : HChan × List Ev :=
 /-- one guest event through the host (`c` = channel index, for the `xf` token) -/
 def hostApply (c : Nat) (h : HChan) (ev : Ev) : HChan × List Ev :=
   match ev with
-  | .ch .swrite [_, n, ans] | .ch .sread [_, n, ans] => hostCopy c h n ans ev
+  | .ch .swrite [_, n, ans, _] | .ch .sread [_, n, ans, _] => hostCopy c h n ans ev
   | .ch .fwrite [_, ans] | .ch .fread [_, ans] => hostCopy c h 1 ans ev
   | .ch .scw [_, ans] | .ch .scr [_, ans] | .ch .fcw [_, ans] | .ch .fcr [_, ans] => hostCancel c h ans ev
   | .ch .sdw [_] | .ch .sdr [_] | .ch .fdw [_] | .ch .fdr [_] => hostDrop h ev
@@ -335,7 +337,7 @@ def GChan.pollNext (g : GChan) (e : Env) (w : WOp RSt RSt) (ans : Nat) : Step (G
 
 /-- the read a `collect` loop iteration starts on `ret` (`reserve(1)` when full) -/
 def collRead (g : GChan) (rd : Reader) (ret : List Nat) (spare : Nat) : WOp RSt RSt :=
-  let spare' := if spare == 0 then growCap g.kind ret.length - ret.length else spare
+  let spare' := if spare == 0 then growCap g.esize ret.length - ret.length else spare
   WOp.new (mkRSt g rd ret spare')
 
 def GChan.pollColl (g : GChan) (e : Env) (w : WOp RSt RSt) (ans : Nat) : Step (GChan × Env) :=
